@@ -15,7 +15,11 @@ import (
 // values) makes it give up. Used to evaluate table-like functions (switch or
 // if chains, small loops) independently of how they are written.
 func ssaEval(f *ssa.Function, bind func(v ssa.Value) (constant.Value, bool)) (res ssa.Value, val constant.Value, ok bool) {
-	if len(f.Blocks) == 0 {
+	return ssaEvalDepth(f, bind, 0)
+}
+
+func ssaEvalDepth(f *ssa.Function, bind func(v ssa.Value) (constant.Value, bool), depth int) (res ssa.Value, val constant.Value, ok bool) {
+	if len(f.Blocks) == 0 || depth > 4 {
 		return nil, nil, false
 	}
 	var prev *ssa.BasicBlock
@@ -36,6 +40,33 @@ func ssaEval(f *ssa.Function, bind func(v ssa.Value) (constant.Value, bool)) (re
 			return c, true
 		}
 		switch x := v.(type) {
+		case *ssa.Call:
+			// a helper of the repository called with evaluable arguments
+			// (a table split over several functions): evaluate it too
+			callee := x.Common().StaticCallee()
+			if callee == nil || callee.Blocks == nil || x.Common().IsInvoke() || callee.Signature.Results().Len() != 1 {
+				return nil, false
+			}
+			if callee.Pkg == nil || !isRepoPath(callee.Pkg.Pkg.Path()) {
+				return nil, false
+			}
+			vals := map[int]constant.Value{}
+			for i, a := range x.Common().Args {
+				if c, ok := eval(a); ok {
+					vals[i] = c
+				}
+			}
+			inner := bindParams(callee, vals)
+			_, c, ok := ssaEvalDepth(callee, func(v ssa.Value) (constant.Value, bool) {
+				if c, ok := inner(v); ok {
+					return c, true
+				}
+				return bind(v)
+			}, depth+1)
+			if ok {
+				memo[v] = c
+			}
+			return c, ok
 		case *ssa.ChangeType:
 			return eval(x.X)
 		case *ssa.Convert:
